@@ -43,7 +43,7 @@ use crate::{
     history::{HOp, PruneCfg, World, hop, prune_cfg},
     inspect::{index_view, to_id},
     membe::{Files, Op, OpKind, OpLog, Storage, tidx},
-    model::{MNode, ReadSchedule},
+    model::{Content, MKind, MNode, MTime, Piece, ReadSchedule},
     repo::{
         RepoCfg, backends, backup_tree, estr, force_opts, open_full, open_ids, open_repo, repo_cfg,
         repo_opts, snap_template,
@@ -476,7 +476,7 @@ fn aop(p: TreeParams) -> BoxedStrategy<AOp> {
     let edits = || prop::collection::vec(edit(p), 0..4);
     prop_oneof![
         10 => (edits(), any::<bool>()).prop_map(|(edits, parent)| AOp::Backup { edits, parent }),
-        4 => (edits(), 0u8..10).prop_map(|(edits, cut)| AOp::CutBackup { edits, cut }),
+        4 => (edits(), prop_oneof![1 => Just(0u8), 4 => 1u8..4, 2 => 4u8..10]).prop_map(|(edits, cut)| AOp::CutBackup { edits, cut }),
         6 => prop::collection::vec(any::<u16>(), 1..3).prop_map(|sel| AOp::Forget { sel }),
         2 => any::<u16>().prop_map(|sel| AOp::Save { sel }),
         8 => prune_cfg().prop_map(AOp::Prune),
@@ -646,6 +646,8 @@ impl Phase {
                 for e in edits {
                     _ = apply_edit(&mut t, e, self.tick);
                 }
+                // new content, so that the crashed run has packs to upload
+                add_fresh_file(&mut t, self.tick, cfg.unit());
                 let time = self.next_time();
                 (
                     Prep::Backup { tree: t, parent: false, time, cut: Some(*cut), dry_run: false },
@@ -734,6 +736,28 @@ impl Phase {
             AOp::Damage { .. } => return Ok(None),
         }))
     }
+}
+
+fn add_fresh_file(tree: &mut MNode, tick: i64, unit: u32) {
+    let len = 3 * unit.min(20_000) + 17;
+    let node = MNode {
+        name: format!("crash-{tick}").into_bytes(),
+        kind: MKind::File {
+            content: Content(vec![Piece::Rand { seed: 0xC15 ^ tick as u64, skip: 0, len }]),
+        },
+        perm: 0o644,
+        mtime: MTime(1_500_000_000 + tick, 0),
+        ctime: MTime(1_500_000_000 + tick, 0),
+        uid: 0,
+        gid: 0,
+        inode: 8_000_000 + tick as u64,
+        device: 7,
+        links: 1,
+    };
+    if let Some(ch) = tree.children_mut() {
+        ch.push(node);
+    }
+    tree.normalise();
 }
 
 fn op_name(op: &AOp) -> &'static str {
